@@ -1093,4 +1093,285 @@ theorem checkKnown_spec {ch : Option Str} {b : Str} (h : LCap ch b) (a : Bool) {
     | none => simp only [Option.map_none, Option.isSome_some]; exact globalsKnown_spec h a hdb fl
     | some c => simp only [Option.map_some]; exact channelStage_spec h a hdb hu fl
 
+/-! ### edits keep capability sets well-formed -/
+
+theorem consistentB_iff {s : CapSet} :
+    consistentB s = true ↔ ∀ c ∈ s, ∀ c', invertCapability c = .ok c' → c' ∉ s := by
+  constructor
+  · intro h c hc c' hi; exact consistent_spec h hc hi
+  · intro h
+    unfold consistentB
+    rw [List.all_eq_true]
+    intro c hc
+    cases hi : invertCapability c with
+    | error e => rfl
+    | ok c' => simpa using h c hc c' hi
+
+/-- every element is a valid capability and no capability sits next to its inverse -/
+def StrongSet (s : CapSet) : Prop := (∀ c ∈ s, validCap c = true) ∧ consistentB s = true
+
+theorem strongSet_nil : StrongSet [] := by
+  refine ⟨?_, rfl⟩
+  intro c h; cases h
+
+theorem mem_insert {s : CapSet} {c x : Str} : x ∈ CapSet.insert s c ↔ x = c ∨ x ∈ s := by
+  unfold CapSet.insert
+  split
+  · rename_i h
+    constructor
+    · intro hx; exact Or.inr hx
+    · rintro (e | e)
+      · subst e; exact h
+      · exact e
+  · simp only [List.mem_append, List.mem_singleton]
+    constructor
+    · rintro (e | e)
+      · exact Or.inr e
+      · exact Or.inl e
+    · rintro (e | e)
+      · exact Or.inr e
+      · exact Or.inl e
+
+theorem mem_erase {s : CapSet} {c x : Str} : x ∈ CapSet.erase s c ↔ x ∈ s ∧ x ≠ c := by
+  unfold CapSet.erase
+  simp [List.mem_filter]
+
+theorem validCap_toLower {cap : Str} (hv : validCap cap = true) : validCap (toLower cap) = true := by
+  obtain ⟨a, ch, b, hch, hb, e⟩ := validCap_shape hv
+  rw [e, toLower_render]
+  exact validCap_render (chanOK_toLower hch) (baseOK_toLower hb)
+
+/-- on valid capabilities inversion is an involution -/
+theorem invert_involutive {x y : Str} (hv : validCap x = true) (hi : invertCapability x = .ok y) :
+    validCap y = true ∧ invertCapability y = .ok x ∧ y ≠ x := by
+  obtain ⟨a, ch, b, hch, hb, e⟩ := validCap_shape hv
+  rw [e, invert_render hch hb] at hi
+  injection hi with hi
+  subst hi
+  refine ⟨validCap_render hch hb, ?_, ?_⟩
+  · rw [invert_render hch hb, e, Bool.not_not]
+  · rw [e]; cases a
+    · exact (keyPos_ne_keyNeg ch b).symm
+    · exact keyPos_ne_keyNeg ch b
+
+theorem invert_ok_of_valid {x : Str} (hv : validCap x = true) : ∃ y, invertCapability x = .ok y := by
+  obtain ⟨a, ch, b, hch, hb, e⟩ := validCap_shape hv
+  exact ⟨_, by rw [e]; exact invert_render hch hb⟩
+
+theorem add_strong {s s' : CapSet} {cap : Str} (hs : StrongSet s) (hv : validCap cap = true)
+    (h : CapSet.add s cap = .ok s') : StrongSet s' := by
+  have hvc := validCap_toLower hv
+  obtain ⟨inv, hinv⟩ := invert_ok_of_valid hvc
+  obtain ⟨hvi, hii, hne⟩ := invert_involutive hvc hinv
+  unfold CapSet.add at h
+  simp only [hinv] at h
+  injection h with h
+  subst h
+  refine ⟨?_, consistentB_iff.2 ?_⟩
+  · intro x hx
+    rcases mem_insert.1 hx with e | e
+    · subst e; exact hvc
+    · exact hs.1 x (mem_erase.1 e).1
+  · intro x hx x' hi hx'
+    rcases mem_insert.1 hx with e | e
+    · subst e
+      rw [hinv] at hi; injection hi with hi; subst hi
+      rcases mem_insert.1 hx' with e' | e'
+      · exact hne e'
+      · exact (mem_erase.1 e').2 rfl
+    · obtain ⟨hxs, hxne⟩ := mem_erase.1 e
+      rcases mem_insert.1 hx' with e' | e'
+      · subst e'
+        -- invert x = toLower cap, so x = invert (toLower cap) = inv
+        obtain ⟨_, hback, _⟩ := invert_involutive (hs.1 x hxs) hi
+        rw [hinv] at hback; injection hback with hback
+        exact hxne hback.symm
+      · exact consistent_spec hs.2 hxs hi (mem_erase.1 e').1
+
+theorem erase_strong {s : CapSet} (c : Str) (hs : StrongSet s) : StrongSet (CapSet.erase s c) := by
+  refine ⟨fun x hx => hs.1 x (mem_erase.1 hx).1, consistentB_iff.2 ?_⟩
+  intro x hx x' hi hx'
+  exact consistent_spec hs.2 (mem_erase.1 hx).1 hi (mem_erase.1 hx').1
+
+theorem remove_strong {s s' : CapSet} {cap : Str} (hs : StrongSet s)
+    (h : CapSet.remove s cap = .ok s') : StrongSet s' := by
+  unfold CapSet.remove at h
+  simp only at h
+  split at h
+  · injection h with h; subst h; exact erase_strong _ hs
+  · cases h
+
+theorem add_mem_iff {s s' : CapSet} {cap inv : Str} (hinv : invertCapability (toLower cap) = .ok inv)
+    (h : CapSet.add s cap = .ok s') (x : Str) :
+    x ∈ s' ↔ x = toLower cap ∨ (x ∈ s ∧ x ≠ inv) := by
+  unfold CapSet.add at h
+  simp only [hinv] at h
+  injection h with h; subst h
+  rw [mem_insert, mem_erase]
+
+theorem ofList_strong_aux (v : List Str) (hv : ∀ c ∈ v, validCap c = true) (s s' : CapSet)
+    (hs : StrongSet s) (h : v.foldlM CapSet.add s = .ok s') : StrongSet s' := by
+  induction v generalizing s with
+  | nil => simp only [List.foldlM_nil, pure, Except.pure] at h; injection h with h; subst h; exact hs
+  | cons c cs ih =>
+    simp only [List.foldlM_cons, bind, Except.bind] at h
+    split at h
+    · cases h
+    · rename_i s1 h1
+      exact ih (fun c hc => hv c (List.mem_cons_of_mem _ hc)) s1
+        (add_strong hs (hv c List.mem_cons_self) h1) h
+
+theorem ofList_strong {v : List Str} (hv : ∀ c ∈ v, validCap c = true) {s' : CapSet}
+    (h : CapSet.ofList v = .ok s') : StrongSet s' :=
+  ofList_strong_aux v hv [] s' strongSet_nil h
+
+/-! ### databases under edits -/
+
+structure Db.Strong (db : Db) : Prop where
+  users : ∀ u ∈ db.users, StrongSet u.caps ∧ antiOwnerS ∉ u.caps
+  channels : ∀ p ∈ db.channels, StrongSet p.2.caps
+  defaults : StrongSet db.defaults
+  registered : StrongSet db.registered
+
+theorem Db.Strong.wf {db : Db} (h : db.Strong) : db.wfB = true := by
+  unfold Db.wfB
+  simp only [Bool.and_eq_true, List.all_eq_true]
+  refine ⟨⟨⟨?_, ?_⟩, h.defaults.2⟩, h.registered.2⟩
+  · intro u hu
+    unfold wfUserB
+    simp only [Bool.and_eq_true, Bool.not_eq_true', decide_eq_false_iff_not]
+    exact ⟨(h.users u hu).1.2, (h.users u hu).2⟩
+  · intro p hp; exact (h.channels p hp).2
+
+def strongB (s : CapSet) : Bool := s.all validCap && consistentB s
+
+theorem strongB_spec {s : CapSet} (h : strongB s = true) : StrongSet s := by
+  unfold strongB at h
+  simp only [Bool.and_eq_true, List.all_eq_true] at h
+  exact h
+
+/-- obligation on the extracted `defaultOff`: a fresh channel record holds valid capabilities -/
+theorem channel_default_strong : strongB Channel.default.caps = true := by decide
+
+theorem mem_putUser {us : List User} {u v : User} (h : v ∈ putUser us u) : v = u ∨ v ∈ us := by
+  induction us with
+  | nil => simp only [putUser, List.mem_singleton] at h; exact Or.inl h
+  | cons w ws ih =>
+    simp only [putUser] at h
+    split at h
+    · rcases List.mem_cons.1 h with e | e
+      · exact Or.inl e
+      · exact Or.inr (List.mem_cons_of_mem _ e)
+    · rcases List.mem_cons.1 h with e | e
+      · exact Or.inr (e ▸ List.mem_cons_self)
+      · rcases ih e with e' | e'
+        · exact Or.inl e'
+        · exact Or.inr (List.mem_cons_of_mem _ e')
+
+theorem mem_putChannel {cs : List (Str × Channel)} {k : Str} {c : Channel} {p : Str × Channel}
+    (h : p ∈ putChannel cs k c) : p = (k, c) ∨ p ∈ cs := by
+  induction cs with
+  | nil => simp only [putChannel, List.mem_singleton] at h; exact Or.inl h
+  | cons w ws ih =>
+    obtain ⟨k', c'⟩ := w
+    simp only [putChannel] at h
+    split at h
+    · rcases List.mem_cons.1 h with e | e
+      · exact Or.inl e
+      · exact Or.inr (List.mem_cons_of_mem _ e)
+    · rcases List.mem_cons.1 h with e | e
+      · exact Or.inr (e ▸ List.mem_cons_self)
+      · rcases ih e with e' | e'
+        · exact Or.inl e'
+        · exact Or.inr (List.mem_cons_of_mem _ e')
+
+theorem getUserById_mem {db : Db} {id : Nat} {u : User} (h : db.getUserById id = some u) :
+    u ∈ db.users := List.mem_of_find?_eq_some h
+
+theorem getChannel_strong {db : Db} (h : db.Strong) (ch : Str) : StrongSet (db.getChannel ch).caps := by
+  unfold Db.getChannel
+  split
+  · rename_i c hl; exact h.channels _ (lookup_mem hl)
+  · exact strongB_spec channel_default_strong
+
+theorem uadd_strong {s s' : CapSet} {cap : Str} (hs : StrongSet s) (ho : antiOwnerS ∉ s)
+    (hv : validCap cap = true) (h : uadd s cap = .ok s') : StrongSet s' ∧ antiOwnerS ∉ s' := by
+  unfold uadd at h
+  simp only at h
+  split at h
+  · cases h
+  · rename_i hne
+    have hvl := validCap_toLower hv
+    refine ⟨add_strong hs hvl h, ?_⟩
+    obtain ⟨inv, hinv⟩ := invert_ok_of_valid (validCap_toLower hvl)
+    intro hm
+    rcases (add_mem_iff hinv h antiOwnerS).1 hm with e | e
+    · rw [toLower_idem] at e
+      exact hne (by simp [e])
+    · exact ho e.1
+
+theorem modifyUser_strong {db db' : Db} {id : Nat} {f : User → R User} (h : db.Strong)
+    (hf : ∀ u u', u ∈ db.users → f u = .ok u' → StrongSet u'.caps ∧ antiOwnerS ∉ u'.caps)
+    (he : db.modifyUser id f = .ok db') : db'.Strong := by
+  unfold Db.modifyUser at he
+  split at he
+  · cases he
+  · rename_i u hu
+    split at he
+    · cases he
+    · rename_i u' hfu
+      injection he with he; subst he
+      refine ⟨?_, h.channels, h.defaults, h.registered⟩
+      intro v hv
+      rcases mem_putUser hv with e | e
+      · subst e; exact hf u u' (getUserById_mem hu) hfu
+      · exact h.users v e
+
+theorem modifyChannel_strong {db db' : Db} {ch : Str} {f : Channel → R Channel} (h : db.Strong)
+    (hf : ∀ c c', StrongSet c.caps → f c = .ok c' → StrongSet c'.caps)
+    (he : db.modifyChannel ch f = .ok db') : db'.Strong := by
+  unfold Db.modifyChannel at he
+  split at he
+  · cases he
+  · rename_i c' hfc
+    injection he with he; subst he
+    refine ⟨h.users, ?_, h.defaults, h.registered⟩
+    intro p hp
+    rcases mem_putChannel hp with e | e
+    · subst e; exact hf _ c' (getChannel_strong h ch) hfc
+    · exact h.channels p e
+
+theorem owner_pair_excl_add {s s' : CapSet} {cap : Str} (h : CapSet.add s cap = .ok s')
+    (hs : ¬ (ownerS ∈ s ∧ antiOwnerS ∈ s)) : ¬ (ownerS ∈ s' ∧ antiOwnerS ∈ s') := by
+  unfold CapSet.add at h
+  simp only at h
+  split at h
+  · cases h
+  · rename_i inv hinv
+    injection h with h; subst h
+    intro ⟨h1, h2⟩
+    rcases mem_insert.1 h1 with e1 | e1
+    · -- toLower cap = owner, so inv = -owner was erased
+      rw [← e1, show invertCapability ownerS = .ok antiOwnerS from invert_keyPos chanOK_none baseOK_owner] at hinv
+      injection hinv with hinv; subst hinv
+      rcases mem_insert.1 h2 with e2 | e2
+      · rw [← e1] at e2; exact absurd e2 (by decide)
+      · exact (mem_erase.1 e2).2 rfl
+    · rcases mem_insert.1 h2 with e2 | e2
+      · rw [← e2, show invertCapability antiOwnerS = .ok ownerS from invert_keyNeg chanOK_none baseOK_owner] at hinv
+        injection hinv with hinv; subst hinv
+        exact (mem_erase.1 e1).2 rfl
+      · exact hs ⟨(mem_erase.1 e1).1, (mem_erase.1 e2).1⟩
+
+theorem owner_pair_excl_fold (v : List Str) (s s' : CapSet) (h : v.foldlM CapSet.add s = .ok s')
+    (hs : ¬ (ownerS ∈ s ∧ antiOwnerS ∈ s)) : ¬ (ownerS ∈ s' ∧ antiOwnerS ∈ s') := by
+  induction v generalizing s with
+  | nil => simp only [List.foldlM_nil, pure, Except.pure] at h; injection h with h; subst h; exact hs
+  | cons c cs ih =>
+    simp only [List.foldlM_cons, bind, Except.bind] at h
+    split at h
+    · cases h
+    · rename_i s1 h1
+      exact ih s1 h (owner_pair_excl_add h1 hs)
+
 end C03
